@@ -102,6 +102,11 @@ impl<CS: CLCiphersuite> Signature<CL03<CS>> {
             return false;
         }
 
+        // v only enters as the base of v^e: only its canonical residue is a valid encoding
+        if sign.v <= 0 || sign.v >= pk.N {
+            return false;
+        }
+
         let lhs = Integer::from(sign.v.pow_mod_ref(&sign.e, &pk.N).unwrap());
 
         let rhs = (Integer::from(a_bases.0[0].pow_mod_ref(&message.value, &pk.N).unwrap())
@@ -139,6 +144,11 @@ impl<CS: CLCiphersuite> Signature<CL03<CS>> {
         }
 
         let sign = self.cl03Signature();
+
+        // v only enters as the base of v^e: only its canonical residue is a valid encoding
+        if sign.v <= 0 || sign.v >= pk.N {
+            return false;
+        }
 
         let lhs = Integer::from(sign.v.pow_mod_ref(&sign.e, &pk.N).unwrap());
 
